@@ -280,6 +280,7 @@ func (e *Engine) sweepFunctions(sw *SweepDecl) []*ssa.Function {
 }
 
 type checkResult struct {
+	used        map[string]bool // keys of the contracts applied at call sites
 	verdicts    []*Verdict
 	funcs       []string
 	abstracted  map[string][]string
@@ -292,7 +293,7 @@ type checkResult struct {
 }
 
 func (e *Engine) runTargets(ts []target, mode string) *checkResult {
-	res := &checkResult{abstracted: map[string][]string{}, uncontracted: map[string]bool{}, trustedUsed: map[string]string{}}
+	res := &checkResult{abstracted: map[string][]string{}, uncontracted: map[string]bool{}, trustedUsed: map[string]string{}, used: map[string]bool{}}
 	var obls []*Obligation
 	// a function that is verified more than once (under its own contract, as the implementation of an interface-level
 	// contract, as a promoted method of several outer types) gets a tag per run, so that no two obligations share a name
@@ -403,6 +404,7 @@ func (e *Engine) runTargets(ts []target, mode string) *checkResult {
 			res.uncontracted[displayKey(k)] = true
 		}
 		for k := range fx.usedContracts {
+			res.used[k] = true
 			if c := e.contracts[k]; c != nil && c.Trusted {
 				res.trustedUsed[displayKey(k)] = c.TrustedWhy
 			} else if strings.HasPrefix(k, "pure-package:") {
@@ -708,6 +710,57 @@ func cmdCheck(args []string) int {
 	}
 	res := e.runTargets(ts, "full")
 	obls := resObls
+	// A contract on a repository function that names no property belongs to whoever relies on it: it is verified in
+	// every check that applies it at a call site (transitively), so that no contract of this repository is ever merely
+	// assumed because nobody claimed it.
+	{
+		have := map[*ssa.Function]bool{}
+		for _, t := range ts {
+			have[t.fn] = true
+		}
+		for round := 0; round < 6; round++ {
+			var more []target
+			var keys []string
+			for k := range res.used {
+				keys = append(keys, k)
+			}
+			sort.Strings(keys)
+			for _, k := range keys {
+				c := e.contracts[k]
+				if c == nil || c.Trusted || c.IsIface || len(c.Props) > 0 || c.Flags["funcparam"] != "" || c.Flags["functype"] != "" || c.Flags["funcfield"] != "" {
+					continue
+				}
+				fn := e.findFunction(c)
+				if fn == nil || len(fn.Blocks) == 0 || have[fn] {
+					continue
+				}
+				have[fn] = true
+				more = append(more, target{fn: fn, con: c})
+			}
+			if len(more) == 0 {
+				break
+			}
+			r2 := e.runTargets(more, "full")
+			obls = append(obls, resObls...)
+			ts = append(ts, more...)
+			res.funcs = append(res.funcs, r2.funcs...)
+			res.engineErrs = append(res.engineErrs, r2.engineErrs...)
+			res.assumed = append(res.assumed, r2.assumed...)
+			res.nosafety = append(res.nosafety, r2.nosafety...)
+			for k, v := range r2.abstracted {
+				res.abstracted[k] = v
+			}
+			for k := range r2.uncontracted {
+				res.uncontracted[k] = true
+			}
+			for k, v := range r2.trustedUsed {
+				res.trustedUsed[k] = v
+			}
+			for k := range r2.used {
+				res.used[k] = true
+			}
+		}
+	}
 	// extra (non-contract) checkers registered for this property
 	extra := runExtras(e, prop, *tier)
 	timeout := 10
